@@ -642,8 +642,9 @@ inductive Op where
   | peek (i : ObjId)           -- another connection reads object `i`
 deriving DecidableEq, Repr, Inhabited
 
-/-- modification of an object through its API: access, change the state, `_p_changed = 1` -/
-def mutate (s : State) (i : ObjId) (f : Obj → Option Obj) : State × Out :=
+/-- modification of an object through its API: access, `_p_changed = 1` and the new payload (in
+    one atomic step; `f` computes the new payload and references, `none` = nothing to change) -/
+def mutate (s : State) (i : ObjId) (f : Obj → Option (Nat × List ObjId)) : State × Out :=
   if !s.opened && (s.objs i).jar then (s, .err .closed)
   else
     let a := access s i
@@ -652,7 +653,9 @@ def mutate (s : State) (i : ObjId) (f : Obj → Option Obj) : State × Out :=
     | none =>
       match f (a.1.objs i) with
       | none => (a.1, .ok)
-      | some o' => (markChanged (setO a.1 i o') i, .ok)
+      | some p =>
+        let s1 := markChanged a.1 i
+        (setO s1 i { s1.objs i with val := p.1, refs := p.2 }, .ok)
 
 def opAdd (s : State) (i : ObjId) : State × Out :=
   if !s.opened then (s, .err .connClosed)
@@ -696,9 +699,9 @@ def step (bound : Nat) (s : State) : Op → State × Out
     match a.2 with
     | some e => (a.1, .err e)
     | none => (a.1, .value (a.1.objs i).val (a.1.objs i).refs)
-  | .modify i v => mutate s i fun o => some { o with val := v }
-  | .link i j => mutate s i fun o => if o.refs.contains j then none else some { o with refs := o.refs ++ [j] }
-  | .unlink i j => mutate s i fun o => if o.refs.contains j then some { o with refs := o.refs.filter (· != j) } else none
+  | .modify i v => mutate s i fun o => some (v, o.refs)
+  | .link i j => mutate s i fun o => if o.refs.contains j then none else some (o.val, o.refs ++ [j])
+  | .unlink i j => mutate s i fun o => if o.refs.contains j then some (o.val, o.refs.filter (· != j)) else none
   | .add i => opAdd s i
   | .commit f => txnCommit bound s f
   | .abort => (txnAbort s, .ok)
